@@ -223,3 +223,23 @@ def returns(fnode):
     expression it was just bound to (effective_return)"""
     out = [effective_return(n) for n in body_nodes(fnode, into_nested=False) if isinstance(n, ast.Return)]
     return sorted(out, key=lambda n: (n.lineno, n.col_offset))
+
+
+def sign_uses(fnode, name):
+    """loads of `name` in the function (nested functions included): (under abs(...), elsewhere) -- a quantity that is only
+    ever read through abs() cannot influence the result by its sign"""
+    n_abs = n_other = 0
+    for n in body_nodes(fnode, into_nested=True):
+        if isinstance(n, ast.Name) and n.id == name and isinstance(n.ctx, ast.Load):
+            p = getattr(n, "_parent", None)
+            under = False
+            while p is not None and p is not fnode:
+                if isinstance(p, ast.Call) and ((isinstance(p.func, ast.Name) and p.func.id == "abs") or (isinstance(p.func, ast.Attribute) and p.func.attr in ("abs", "absolute"))):
+                    under = True
+                    break
+                p = getattr(p, "_parent", None)
+            if under:
+                n_abs += 1
+            else:
+                n_other += 1
+    return n_abs, n_other
